@@ -946,3 +946,44 @@ pub fn handle_coalesced_credit_native(k: u8) -> u32 {
     assert!(conn.path.total_recvd == before + total, "a {}-byte datagram was credited as {} bytes", total, conn.path.total_recvd - before);
     1
 }
+
+/// Native replay body for the E2 query `e2_init_0rtt_scrubs_params` (C04 / C14): a client resumes with
+/// remembered transport parameters that still contain the PREVIOUS connection's stateless reset token
+/// and connection IDs.  None of these may be in force while the new handshake runs.
+pub fn init_0rtt_native(_x: u8) -> u32 {
+    use crate::crypto::{HeaderKey, KeyPair, PacketKey};
+    struct Resuming;
+    impl crate::crypto::Session for Resuming {
+        fn initial_keys(&self, _: ConnectionId, _: Side) -> crate::crypto::Keys { nullcrypto::keys() }
+        fn handshake_data(&self) -> Option<Box<dyn std::any::Any>> { None }
+        fn peer_identity(&self) -> Option<Box<dyn std::any::Any>> { None }
+        fn early_crypto(&self) -> Option<(Box<dyn HeaderKey>, Box<dyn PacketKey>)> {
+            Some((Box::new(nullcrypto::NullHeaderKey), Box::new(nullcrypto::NullPacketKey)))
+        }
+        fn early_data_accepted(&self) -> Option<bool> { None }
+        fn is_handshaking(&self) -> bool { true }
+        fn read_handshake(&mut self, _: &[u8]) -> Result<bool, TransportError> { Ok(false) }
+        fn transport_parameters(&self) -> Result<Option<TransportParameters>, TransportError> {
+            let mut p = TransportParameters::default();
+            p.initial_max_data = VarInt::from_u32(5555);
+            p.stateless_reset_token = Some(ResetToken::from([0x77; 16]));
+            p.initial_src_cid = Some(ConnectionId::new(&[1; 8]));
+            p.original_dst_cid = Some(ConnectionId::new(&[2; 8]));
+            p.retry_src_cid = Some(ConnectionId::new(&[3; 8]));
+            Ok(Some(p))
+        }
+        fn write_handshake(&mut self, _: &mut Vec<u8>) -> Option<crate::crypto::Keys> { None }
+        fn next_1rtt_keys(&mut self) -> Option<KeyPair<Box<dyn PacketKey>>> { None }
+        fn is_valid_retry(&self, _: ConnectionId, _: &[u8], _: &[u8]) -> bool { false }
+        fn export_keying_material(&self, _: &mut [u8], _: &[u8], _: &[u8]) -> Result<(), crate::crypto::ExportKeyingMaterialError> { Err(crate::crypto::ExportKeyingMaterialError) }
+    }
+    let mut conn = mk_conn(false, false);
+    conn.crypto = Box::new(Resuming);
+    conn.init_0rtt();
+    assert!(conn.has_0rtt(), "early keys were available");
+    assert!(conn.peer_params.initial_max_data == VarInt::from_u32(5555), "remembered limits must be usable for early data");
+    assert!(conn.peer_params.stateless_reset_token.is_none(), "the previous connection's stateless reset token is in force on the new connection");
+    assert!(conn.peer_params.initial_src_cid.is_none() && conn.peer_params.original_dst_cid.is_none() && conn.peer_params.retry_src_cid.is_none());
+    assert!(conn.peer_params.preferred_address.is_none());
+    1
+}
